@@ -13,8 +13,19 @@
       [pairs_of wells vols] = [zip (flattenF wells) (broadcast (flattenF vols) (length (flattenF wells)))];
       [lwcall] = [CAdd wells vols label comps | CRemove wells vols label], [do_call], and
       [run_calls L cs] which runs the calls in order and collects their outcomes (like [Program.run]);
-      [call_events] / [history_events L cs]: the events of one call / of all calls, concatenated. *)
-From Robo Require Import Prelude Str Wells Utils Labware Invariants LabwareProofs.
+      [call_events] / [history_events L cs]: the events of one call / of all calls, concatenated.
+
+    Worklist level (audit item M6; proofs in Proofs/WorklistLevelProofs.v): the same ledger for [aspirate],
+    [dispense], [evo_aspirate], [evo_dispense], [distribute] and [transfer], with the frame (other labware
+    unchanged, wells not addressed unchanged, for every outcome).  [occurrences L ws j], defined below, is
+    the number of ids of [ws] that address the real well [j] of [L] (virtual rows of a trough column all
+    count for the one real well).  From Proofs/PlanProofs.v: [t_triples sw dw vs] = the (source id,
+    destination id, volume) triples of a [transfer] call after broadcasting; from
+    Proofs/DilutionExecProofs.v: [well_out L i T] / [well_in L i T] = the sum of the volumes of the triples
+    of [T] whose source / destination id addresses the real well [i] of [L]; [dist_src a] = the source
+    well id of [distribute]. *)
+From Robo Require Import Prelude Str Wells Utils Labware Tips Records Partition Params Worklist EvoCmd
+  Program Invariants LabwareProofs PlanProofs DilutionExecProofs WorklistLevelProofs.
 #[local] Open Scope Q_scope.
 
 (** accepted [add]: wells and volumes are paired element-wise after column-major flattening ([flattenF])
@@ -80,11 +91,34 @@ Theorem C04_trough_alias_lw : forall L v r c,
 Proof. exact trough_alias_lw. Qed.
 Print Assumptions C04_trough_alias_lw.
 
-(** [flattenF]: scalar, 1-D, and column-major for a rectangular 2-D argument ([R] rows of length [C]) *)
-Theorem C04_flatten_scalar : forall (A : Type) (x : A), flattenF (A0 x) = [x].
-Proof. exact @flattenF_A0. Qed.
-Print Assumptions C04_flatten_scalar.
+(** a scalar volume applies to every addressed well: with the volume [v] given as a scalar, every real well
+    changes by (number of listed ids that address it) * v.  (This replaces the former [C04_flatten_scalar :
+    flattenF (A0 x) = [x]], which held by definition of the model.) *)
+Definition occurrences (L : labware) (ws : list string) (j : nat) : nat :=
+  length (filter (fun w => match lw_index L w with Some i => (i =? j)%nat | None => false end) ws).
 
+Theorem C04_add_scalar : forall L wells v label comps L',
+  add L wells (A0 (XQ v)) label comps = (L', None) -> wf_shape L ->
+  forall j, nth j (lw_vols L') 0 ==
+            nth j (lw_vols L) 0 + inject_Z (Z.of_nat (occurrences L (flattenF wells) j)) * v.
+Proof. exact add_scalar. Qed.
+Print Assumptions C04_add_scalar.
+
+Theorem C04_remove_scalar : forall L wells v label L',
+  remove L wells (A0 (XQ v)) label = (L', None) -> wf_shape L ->
+  forall j, nth j (lw_vols L') 0 ==
+            nth j (lw_vols L) 0 - inject_Z (Z.of_nat (occurrences L (flattenF wells) j)) * v.
+Proof. exact remove_scalar. Qed.
+Print Assumptions C04_remove_scalar.
+
+(** a real well that no listed id addresses has no occurrence *)
+Theorem C04_occurrences_untouched : forall L ws j,
+  (forall w, In w ws -> lw_index L w <> Some j) -> occurrences L ws j = 0%nat.
+Proof. exact occurrences_zero. Qed.
+Print Assumptions C04_occurrences_untouched.
+
+(** [flattenF] of a 1-D argument is the list itself (by definition of the model; kept for reference), and
+    column-major for a rectangular 2-D argument ([R] rows of length [C]) *)
 Theorem C04_flatten_1d : forall (A : Type) (xs : list A), flattenF (A1 xs) = xs.
 Proof. exact @flattenF_A1. Qed.
 Print Assumptions C04_flatten_1d.
@@ -96,6 +130,166 @@ Theorem C04_flatten : forall (A : Type) (rows : list (list A)) (C : nat),
     nth (c * length rows + r) (flattenF (A2 rows)) d = nth c (nth r rows []) d.
 Proof. exact @flattenF_A2_rect. Qed.
 Print Assumptions C04_flatten.
+
+(* ================================================================== worklist level (M6) *)
+
+(** accepted [aspirate]: labware [k] changes exactly by the events of the (well, volume) pairs - paired
+    element-wise after column-major flattening and scalar broadcasting ([pairs_of]), one event per occurrence -
+    and every other labware is unchanged *)
+Theorem C04_aspirate_ledger : forall s k wells vols label kw s',
+  aspirate s k wells vols label kw = (s', None) -> wf_state s ->
+  exists L L' evs, nth_error (st_lw s) k = Some L /\ nth_error (st_lw s') k = Some L' /\
+    events_of L (pairs_of wells vols) = Some evs /\
+    length (lw_vols L') = length (lw_vols L) /\
+    (forall j, nth j (lw_vols L') 0 == nth j (lw_vols L) 0 + delta (neg_events evs) j) /\
+    length (st_lw s') = length (st_lw s) /\
+    forall j, j <> k -> nth_error (st_lw s') j = nth_error (st_lw s) j.
+Proof. exact aspirate_ledger. Qed.
+Print Assumptions C04_aspirate_ledger.
+
+Theorem C04_dispense_ledger : forall s k wells vols label comps kw s',
+  dispense s k wells vols label comps kw = (s', None) -> wf_state s ->
+  exists L L' evs, nth_error (st_lw s) k = Some L /\ nth_error (st_lw s') k = Some L' /\
+    events_of L (pairs_of wells vols) = Some evs /\
+    length (lw_vols L') = length (lw_vols L) /\
+    (forall j, nth j (lw_vols L') 0 == nth j (lw_vols L) 0 + delta evs j) /\
+    length (st_lw s') = length (st_lw s) /\
+    forall j, j <> k -> nth_error (st_lw s') j = nth_error (st_lw s) j.
+Proof. exact dispense_ledger. Qed.
+Print Assumptions C04_dispense_ledger.
+
+Theorem C04_evo_aspirate_ledger : forall s k a label s',
+  evo_aspirate s k a label = (s', None) -> wf_state s ->
+  exists L L' evs, nth_error (st_lw s) k = Some L /\ nth_error (st_lw s') k = Some L' /\
+    events_of L (pairs_of (c_wells a) (evo_vols (c_volume a))) = Some evs /\
+    length (lw_vols L') = length (lw_vols L) /\
+    (forall j, nth j (lw_vols L') 0 == nth j (lw_vols L) 0 + delta (neg_events evs) j) /\
+    length (st_lw s') = length (st_lw s) /\
+    forall j, j <> k -> nth_error (st_lw s') j = nth_error (st_lw s) j.
+Proof. exact evo_aspirate_ledger. Qed.
+Print Assumptions C04_evo_aspirate_ledger.
+
+Theorem C04_evo_dispense_ledger : forall s k a label comps s',
+  evo_dispense s k a label comps = (s', None) -> wf_state s ->
+  exists L L' evs, nth_error (st_lw s) k = Some L /\ nth_error (st_lw s') k = Some L' /\
+    events_of L (pairs_of (c_wells a) (evo_vols (c_volume a))) = Some evs /\
+    length (lw_vols L') = length (lw_vols L) /\
+    (forall j, nth j (lw_vols L') 0 == nth j (lw_vols L) 0 + delta evs j) /\
+    length (st_lw s') = length (st_lw s) /\
+    forall j, j <> k -> nth_error (st_lw s') j = nth_error (st_lw s) j.
+Proof. exact evo_dispense_ledger. Qed.
+Print Assumptions C04_evo_dispense_ledger.
+
+(** frame, for every outcome (accepted or rejected) and without well-formedness hypotheses: other labware are
+    unchanged (equal, not just in volume), and a real well of labware [k] that no given id addresses keeps
+    its volume *)
+Theorem C04_aspirate_frame : forall s k wells vols label kw,
+  let s' := fst (aspirate s k wells vols label kw) in
+  length (st_lw s') = length (st_lw s) /\
+  (forall j, j <> k -> nth_error (st_lw s') j = nth_error (st_lw s) j) /\
+  forall L, nth_error (st_lw s) k = Some L ->
+    exists L', nth_error (st_lw s') k = Some L' /\
+      forall i, (forall w, In w (flattenF wells) -> lw_index L w <> Some i) ->
+                nth i (lw_vols L') 0 = nth i (lw_vols L) 0.
+Proof. exact aspirate_frame. Qed.
+Print Assumptions C04_aspirate_frame.
+
+Theorem C04_dispense_frame : forall s k wells vols label comps kw,
+  let s' := fst (dispense s k wells vols label comps kw) in
+  length (st_lw s') = length (st_lw s) /\
+  (forall j, j <> k -> nth_error (st_lw s') j = nth_error (st_lw s) j) /\
+  forall L, nth_error (st_lw s) k = Some L ->
+    exists L', nth_error (st_lw s') k = Some L' /\
+      forall i, (forall w, In w (flattenF wells) -> lw_index L w <> Some i) ->
+                nth i (lw_vols L') 0 = nth i (lw_vols L) 0.
+Proof. exact dispense_frame. Qed.
+Print Assumptions C04_dispense_frame.
+
+Theorem C04_evo_aspirate_frame : forall s k a label,
+  let s' := fst (evo_aspirate s k a label) in
+  length (st_lw s') = length (st_lw s) /\
+  (forall j, j <> k -> nth_error (st_lw s') j = nth_error (st_lw s) j) /\
+  forall L, nth_error (st_lw s) k = Some L ->
+    exists L', nth_error (st_lw s') k = Some L' /\
+      forall i, (forall w, In w (flattenF (c_wells a)) -> lw_index L w <> Some i) ->
+                nth i (lw_vols L') 0 = nth i (lw_vols L) 0.
+Proof. exact evo_aspirate_frame. Qed.
+Print Assumptions C04_evo_aspirate_frame.
+
+Theorem C04_evo_dispense_frame : forall s k a label comps,
+  let s' := fst (evo_dispense s k a label comps) in
+  length (st_lw s') = length (st_lw s) /\
+  (forall j, j <> k -> nth_error (st_lw s') j = nth_error (st_lw s) j) /\
+  forall L, nth_error (st_lw s) k = Some L ->
+    exists L', nth_error (st_lw s') k = Some L' /\
+      forall i, (forall w, In w (flattenF (c_wells a)) -> lw_index L w <> Some i) ->
+                nth i (lw_vols L') 0 = nth i (lw_vols L) 0.
+Proof. exact evo_dispense_frame. Qed.
+Print Assumptions C04_evo_dispense_frame.
+
+(** scalar volume through the worklist: each real well changes by (occurrences) * v *)
+Theorem C04_aspirate_scalar : forall s k wells v label kw s',
+  aspirate s k wells (A0 (XQ v)) label kw = (s', None) -> wf_state s ->
+  exists L L', nth_error (st_lw s) k = Some L /\ nth_error (st_lw s') k = Some L' /\
+    forall j, nth j (lw_vols L') 0 ==
+              nth j (lw_vols L) 0 + -(1) * (inject_Z (Z.of_nat (occurrences L (flattenF wells) j)) * v).
+Proof. exact aspirate_scalar. Qed.
+Print Assumptions C04_aspirate_scalar.
+
+Theorem C04_dispense_scalar : forall s k wells v label comps kw s',
+  dispense s k wells (A0 (XQ v)) label comps kw = (s', None) -> wf_state s ->
+  exists L L', nth_error (st_lw s) k = Some L /\ nth_error (st_lw s') k = Some L' /\
+    forall j, nth j (lw_vols L') 0 ==
+              nth j (lw_vols L) 0 + 1 * (inject_Z (Z.of_nat (occurrences L (flattenF wells) j)) * v).
+Proof. exact dispense_scalar. Qed.
+Print Assumptions C04_dispense_scalar.
+
+(** accepted [distribute]: the source well (real well [i_s] of labware [ks]) loses n * v, every real well of
+    labware [kd] gains (occurrences among the destination ids) * v, nothing else changes; [ks = kd] allowed *)
+Theorem C04_distribute_ledger : forall s ks kd dwells a s',
+  distribute s ks kd dwells a = (s', None) -> wf_state s ->
+  exists Ls Ld v i_s,
+    nth_error (st_lw s) ks = Some Ls /\ nth_error (st_lw s) kd = Some Ld /\
+    rvol_x (d_volume a) = Some (XQ v) /\ lw_index Ls (dist_src a) = Some i_s /\
+    length (st_lw s') = length (st_lw s) /\
+    forall j L, nth_error (st_lw s) j = Some L ->
+      exists L', nth_error (st_lw s') j = Some L' /\ lw_geom L' = lw_geom L /\
+        (j <> ks -> j <> kd -> L' = L) /\
+        forall i, vol_at L' i == vol_at L i
+            - (if ((j =? ks) && (i_s =? i))%nat
+               then inject_Z (Z.of_nat (length (flattenF dwells))) * v else 0)
+            + (if (j =? kd)%nat
+               then inject_Z (Z.of_nat (occurrences L (flattenF dwells) i)) * v else 0).
+Proof. exact distribute_ledger. Qed.
+Print Assumptions C04_distribute_ledger.
+
+(** accepted [transfer] (generalises C14_transfer_ledger_partial: also for a worklist without auto_split,
+    whatever its max_volume): every real well [i] of every labware [j] changes by minus the volumes of the
+    triples whose source id addresses it (if [j = ks]) plus those whose destination id addresses it (if
+    [j = kd]) *)
+Theorem C04_transfer_ledger_partial : forall s ks swells kd dwells vols label ws pb kw s',
+  transfer s ks swells kd dwells vols label ws pb kw = (s', None) -> wf_state s ->
+  w_autosplit (st_wl s) = false \/ 0 < w_max (st_wl s) ->
+  length (st_lw s') = length (st_lw s) /\
+  forall j L, nth_error (st_lw s) j = Some L ->
+    exists L', nth_error (st_lw s') j = Some L' /\ lw_geom L' = lw_geom L /\
+      forall i, vol_at L' i == vol_at L i
+                             - (if (j =? ks)%nat then well_out L i (t_triples swells dwells vols) else 0)
+                             + (if (j =? kd)%nat then well_in L i (t_triples swells dwells vols) else 0).
+Proof. exact transfer_ledger_gen. Qed.
+Print Assumptions C04_transfer_ledger_partial.
+
+(** the statement without the hypothesis on the worklist is false (auto_split with max_volume = -2: the
+    transfer of 5 uL is accepted and nothing moves; same witness as C14_transfer_ledger_refuted) *)
+Theorem C04_transfer_ledger_refuted :
+  exists s ks sw kd dw vols label ws pb kw s' L L',
+    transfer s ks sw kd dw vols label ws pb kw = (s', None) /\ wf_state s /\
+    nth_error (st_lw s) ks = Some L /\ nth_error (st_lw s') ks = Some L' /\
+    ~ vol_at L' 0 == vol_at L 0
+                     - (if (ks =? ks)%nat then well_out L 0 (t_triples sw dw vols) else 0)
+                     + (if (ks =? kd)%nat then well_in L 0 (t_triples sw dw vols) else 0).
+Proof. exact transfer_ledger_gen_refuted. Qed.
+Print Assumptions C04_transfer_ledger_refuted.
 
 (* ------------------------------------------------------------------ non-vacuity *)
 
@@ -129,3 +323,48 @@ Proof. vm_compute. repeat split; reflexivity. Qed.
 Example C04_example_flatten :
   flattenF (A2 [["a"; "b"; "c"]; ["d"; "e"; "f"]]%string) = ["a"; "d"; "b"; "e"; "c"; "f"]%string.
 Proof. vm_compute. reflexivity. Qed.
+
+(* ------------------------------------------------------------------ non-vacuity, worklist level *)
+
+Definition C04_ex_state : state :=
+  {| st_lw := [ex_trough; ex_plate]; st_wl := init_wl Evo 950 true false |}.
+
+Example C04_example_state : wf_state C04_ex_state.
+Proof. constructor; [exact ex_trough_wf|constructor; [exact ex_plate_wf|constructor]]. Qed.
+
+(** [aspirate] from the trough with a 2-D id array read column-major (A01, E01, A02, C02) and a scalar volume:
+    A01 and E01 are the same real well (two occurrences), A02 and C02 likewise; the plate is unchanged *)
+Example C04_example_aspirate :
+  let r := aspirate C04_ex_state 0 (A2 [["A01"; "A02"]; ["E01"; "C02"]]%string) (A0 (XQ 100)) None kw_default in
+  snd r = None /\ map lw_vols (st_lw (fst r)) = [[19800; 4800]; [50; 50; 50; 50; 50; 50]] /\
+  events_of ex_trough (pairs_of (A2 [["A01"; "A02"]; ["E01"; "C02"]]%string) (A0 (XQ 100)))
+    = Some [(0%nat, 100); (0%nat, 100); (1%nat, 100); (1%nat, 100)] /\
+  occurrences ex_trough (flattenF (A2 [["A01"; "A02"]; ["E01"; "C02"]]%string)) 0 = 2%nat.
+Proof. vm_compute. repeat split; reflexivity. Qed.
+
+(** [dispense] with element-wise volumes, A01 listed twice *)
+Example C04_example_dispense :
+  let r := dispense C04_ex_state 1 (A1 ["A01"; "B02"; "A01"]%string) (A1 [XQ 1; XQ 2; XQ 3]) None None
+                    kw_default in
+  snd r = None /\ map lw_vols (st_lw (fst r)) = [[20000; 5000]; [54; 50; 50; 50; 52; 50]].
+Proof. vm_compute. split; reflexivity. Qed.
+
+(** [distribute] 10 uL from column 2 of the trough to A02, B02, A02: 30 out of the source, A02 charged twice *)
+Example C04_example_distribute :
+  let a := {| d_source_column := 1; d_volume := RVInt 10; d_diti_reuse := 1; d_multi_disp := 1;
+              d_liquid_class := PStr "W"; d_label := None; d_direction := "left_to_right"%string;
+              d_src_id := PStr ""; d_src_type := PStr ""; d_dst_id := PStr ""; d_dst_type := PStr "" |} in
+  let r := distribute C04_ex_state 0 1 (A1 ["A02"; "B02"; "A02"]%string) a in
+  snd r = None /\ map lw_vols (st_lw (fst r)) = [[20000; 4970]; [50; 70; 50; 50; 60; 50]] /\
+  dist_src a = "A02"%string /\ occurrences ex_plate ["A02"; "B02"; "A02"]%string 1 = 2%nat.
+Proof. vm_compute. repeat split; reflexivity. Qed.
+
+(** [transfer] trough -> plate on a worklist without auto_split (first alternative of the hypothesis of
+    [C04_transfer_ledger_partial]): 40 uL from A01 of the trough to A01 and B01 of the plate *)
+Example C04_example_transfer :
+  let s := {| st_lw := [ex_trough; ex_plate]; st_wl := init_wl Evo 950 false false |} in
+  let r := transfer s 0 (A0 "A01"%string) 1 (A1 ["A01"; "B01"]%string) (A0 40) None SFlush "auto"%string
+                    kw_default in
+  snd r = None /\ map lw_vols (st_lw (fst r)) = [[19920; 5000]; [90; 50; 50; 90; 50; 50]] /\
+  (w_autosplit (st_wl s) = false \/ 0 < w_max (st_wl s)).
+Proof. vm_compute. repeat split; try reflexivity. left. reflexivity. Qed.
